@@ -80,7 +80,14 @@ class Case:
         self.compiled_modules = []  # module file basenames that must compile when fresh
 
 
-def gen_case(rng, idx):
+DEAD = ["(when (< 1 0) %s)", "(if (< 1 0) (do %s 1) 2)", "(for [_ []] %s None)", "(try (when (< 1 0) %s) (finally None))",
+        "(while (< 1 0) %s None)"]
+
+
+def gen_case(rng, idx, dead_prob=0.3):
+    """dead_prob: how often a module-level require is preceded by an identical copy inside a top-level branch
+    that does not run (the compile-time require still happens there; the live copy must still emit its own
+    run-time call)"""
     c = Case(idx)
     mods = {}
     for k in range(rng.choice([1, 2, 2, 3])):
@@ -198,6 +205,13 @@ def gen_case(rng, idx):
             bring(("sub." + n, plus(consts[n])) for n in consts)
             n = rng.choice(sorted(consts))
             lines.append(use("sub.%s" % n))
+    j = 0
+    while j < len(lines):
+        if lines[j].startswith("(require") and rng.random() < dead_prob:
+            lines.insert(j, rng.choice(DEAD) % lines[j])
+            c.shapes.append("dead-branch-copy")
+            j += 1
+        j += 1
     if rng.random() < 0.5:
         lines.append("(defmacro own-mac [x] `(* ~x 3))")
         bring([("own-mac", lambda x: x * 3)])
